@@ -25,6 +25,7 @@ RULE = ("any_iter: item lists of length 0..6 x {plain, coroutine, custom awaitab
         "returns a plain value, a coroutine, a custom awaitable or raises, differently per call. non-trivial = non-empty list or >= 1 argument; distinct = shape")
 RULE += (' Also: every planned failure sweeps the exception type; fault cases for any_iter / await_each / apply (item, iteration step, outer awaitable, function); leftovers untouched after an early close or failure; awaitables with value equality (hashable / unhashable) given to apply.')
 RULE += (' Also: a failing callable: the call sync(f)(x) itself must return an awaitable, the failure comes out of awaiting it.')
+RULE += (' Also: sync() of two related callables (wraps copy, object copy, bound methods, subclass) in both orders.')
 ASSUMPTIONS = ["direct specification oracle (no stdlib twin exists for these helpers)"]
 EXHAUSTIVE = {"quick": True, "thorough": True}
 MAX_SHARDS = 8
